@@ -7,4 +7,10 @@ CHECKS = {
     text="Every ordered partition (incl. empty ranks) of n summands over k ranks, all interleavings, rendezvous and buffered sends: no deadlock, every rank returns the single-process pairwise tree (symbolic summands make the value the tree itself; float/ndarray/Field/MultiField payloads bit-compared). TLC checks the abstract protocol to larger k,n; every edge of TLC's state graph is replayed against the implementation with enabled-set equality (bisimulation on the reachable graph).",
     note="Simulated communicator (mpi4py surface used by NIFTy), not libmpi; collectives modelled as synchronising; bounds: quick n<=8,k<=4 (sym) / thorough n<=10,k<=5; TLC up to k=6,n=12.",
     ref="DESIGN.md section 3 (C23), 7.4"),
+ "C24": dict(
+    engine="fsfault+case-runner", level="fault_enumeration",
+    technique="exhaustive crash-point enumeration of a recorded write history (before every FS event, torn writes, end), each state materialised and resumed with the real driver",
+    text="Every crash state of the complete write history of small multi-iteration jft.optimize_kl runs (MGVI, sample-mode switching, MAP->VI, geoVI) is materialised; resume=True must finish and return samples, keys and optimisation state bit-identical to the uninterrupted run, and persist an equivalent state.",
+    note="Process-kill model (no power-loss reordering); writes must go through Python open() (asserted by comparing the model FS with the real directory); scenarios are tiny models.",
+    ref="DESIGN.md section 4 (C24)"),
 }
